@@ -1,7 +1,8 @@
 SPECIFICATION Spec
 CONSTANTS
   L = 3
-  G = 10
+  G0 = 10
+  Globals = {10, 6, 4}
   Variant = "fixed"
   MaxSteps = 6
 INVARIANT Emit
